@@ -180,9 +180,13 @@ def structural_missing(repo, c, m, f, roots, dict_fields):
             continue
         any_cls = True
         derived_from = set(m.structural) | set(m.slots) | ({m.template} if m.template else set())
-        for p in m.structural:
+        for p in list(m.structural) + ([m.template] if m.template else []):
             labs = rf.fields.get(p, frozenset())
-            if any(r in roots and (f2 == p or f2 in derived_from) for (r, f2, fv, z) in labs):
+            if p == m.template:
+                # the template new bins are instantiated from: it has to be the operand's own template
+                if any(r in roots and f2 == p for (r, f2, fv, z) in labs):
+                    continue
+            elif any(r in roots and (f2 == p or f2 in derived_from) for (r, f2, fv, z) in labs):
                 continue
             if p not in [x for x, _ in missing]:
                 missing.append((p, (rf.ctor_calls or [rn])[0]))
